@@ -21,6 +21,19 @@ static pthread_mutex_t mu = PTHREAD_MUTEX_INITIALIZER;
 static pthread_cond_t cv = PTHREAD_COND_INITIALIZER;
 static format_fn fmt;
 
+static int concurrent = 0;
+
+/* free-running mode: every thread works through its own calls without a baton */
+static void *free_worker(void *arg) {
+    int me = (int)(long)arg;
+    for (int i = 0; i < ncalls; i++) {
+        if (calls[i].thread % nthreads != me) continue;
+        char *r = fmt(calls[i].in);
+        if (r) { calls[i].out = strdup(r); free(r); } else { calls[i].out = NULL; }
+    }
+    return NULL;
+}
+
 static void *worker(void *arg) {
     int me = (int)(long)arg;
     pthread_mutex_lock(&mu);
@@ -42,7 +55,8 @@ static void *worker(void *arg) {
 }
 
 int main(int argc, char **argv) {
-    if (argc != 4) { fprintf(stderr, "usage: chost lib spec out\n"); return 2; }
+    if (argc == 5 && strcmp(argv[4], "concurrent") == 0) { concurrent = 1; argc = 4; }
+    if (argc != 4) { fprintf(stderr, "usage: chost lib spec out [concurrent]\n"); return 2; }
     void *h = dlopen(argv[1], RTLD_NOW);
     if (!h) { fprintf(stderr, "dlopen: %s\n", dlerror()); return 2; }
     fmt = (format_fn)dlsym(h, "FormatPacketDslExport");
@@ -62,7 +76,7 @@ int main(int argc, char **argv) {
     }
     fclose(f);
     pthread_t *th = calloc(nthreads, sizeof *th);
-    for (int t = 0; t < nthreads; t++) pthread_create(&th[t], NULL, worker, (void *)(long)t);
+    for (int t = 0; t < nthreads; t++) pthread_create(&th[t], NULL, concurrent ? free_worker : worker, (void *)(long)t);
     for (int t = 0; t < nthreads; t++) pthread_join(th[t], NULL);
     FILE *o = fopen(argv[3], "wb");
     if (!o) { perror("out"); return 2; }
